@@ -188,6 +188,12 @@ func knownUnits() []knownUnit {
 			Subject: sub("go", nil, mkFile("a.thrift", "pa", none, svc("S", nil, fnVoid("f", []*idlgen.Field{fd(1, "a", i32), fd(2, "a", i32)}, nil))))},
 		{ID: "X4", Expect: "fail", Note: "function client_: method Client_ of the generated client declared twice",
 			Subject: sub("go", nil, mkFile("a.thrift", "pa", none, svc("S", nil, fnVoid("client_", nil, nil))))},
+		{ID: "X6", Expect: "fail", Note: "fastgo: field b_length: field and method BLength (fastgo's methods are not reserved either)",
+			Subject: sub("fastgo", nil, mkFile("a.thrift", "pa", none, strct("S", fd(1, "b_length", i32))))},
+		{ID: "X7", Expect: "fail", Note: "template=raw_struct: typedef of a struct emits New<T>() calling New<S>(), which that template does not generate",
+			Subject: sub("go", []string{"template=raw_struct"}, mkFile("a.thrift", "pa", none, strct("S"), tdef("T", tRef(0, "S"))))},
+		{ID: "X8", Expect: "fail", Note: "fastgo: typedef of a list as an argument type: BLength declares a loop variable it does not use",
+			Subject: sub("fastgo", nil, mkFile("a.thrift", "pa", none, tdef("L", tList(i32)), svc("V", nil, fnVoid("m", []*idlgen.Field{fd(1, "a", tRef(0, "L"))}, nil))))},
 		{ID: "X5", Expect: "fail", Note: "union U with a member count_set_fields_u: field and method CountSetFieldsU (buildStructLike reserves CountSetFields, the template declares CountSetFields<T>)",
 			Subject: sub("go", nil, mkFile("a.thrift", "pa", none, &idlgen.Struct{Kind: 'u', Name: "U", Fields: []*idlgen.Field{fd(1, "count_set_fields_u", i32)}}))},
 	}
